@@ -24,7 +24,7 @@ func init() {
 			"with 0 accidentals the flat/sharp flag is reported as sharp (false): the circle of fifths has no flats there",
 			"tempo domain is the set of BPM values 60e6/f for every 24-bit field value f >= 1 (every representable tempo)",
 		},
-		Require: []string{"text_len_ge_128", "seqdata_len_ge_128", "tempo_fields", "named_keys", "key_tuples", "timesig_tuples", "meta_msgs_classified", "text_dictionary_points", "nil_pattern_calls"},
+		Require: []string{"shared_out_variable_reads", "text_len_ge_128", "seqdata_len_ge_128", "tempo_fields", "named_keys", "key_tuples", "timesig_tuples", "meta_msgs_classified", "text_dictionary_points", "nil_pattern_calls"},
 		Run:     runC15,
 	})
 }
@@ -143,6 +143,63 @@ func runC15(c *mon.Ctx) {
 		if n == 128 {
 			c.Sample("text", map[string]any{"ctor": "MetaText", "len": n, "head": mon.Hex(head(smf.MetaText(string(bytes.Repeat([]byte("x"), n))), 8))})
 		}
+	})
+
+	// ---- one out variable used for many messages, in several passes (the way a loop over a track reads
+	// them): what an accessor returns for one message must not depend on, or change, any other message
+	c.Each("out-variable-reuse", c.N(200, 10_000), func(i int64, r *mon.Rand) {
+		n := r.Range(3, 10)
+		type item struct {
+			m    smf.Message
+			keep []byte // the message bytes as constructed
+			data []byte // constructor argument (sequencer data) or text
+			text bool
+		}
+		items := make([]item, n)
+		var sizes []int
+		for k := range items {
+			ln := r.Pick(1, 2, 3, 100, 127, 128, 129, 5000, 16383, 16384, 20000)
+			if r.P(1, 3) {
+				ln = r.Range(1, 300)
+			}
+			d := r.Bytes(ln)
+			if r.P(1, 4) {
+				items[k] = item{m: smf.MetaText(string(d)), data: d, text: true}
+			} else {
+				items[k] = item{m: smf.MetaSequencerData(append([]byte(nil), d...)), data: d}
+			}
+			items[k].keep = append([]byte(nil), items[k].m...)
+			sizes = append(sizes, ln)
+		}
+		in := map[string]any{"payload_sizes_in_reading_order": sizes}
+		var out []byte // the one out variable
+		var txt string
+		for pass := 0; pass < 3; pass++ {
+			for k := range items {
+				it := &items[k]
+				var ok bool
+				var got []byte
+				if it.text {
+					ok = it.m.GetMetaText(&txt)
+					got = []byte(txt)
+				} else {
+					ok = it.m.GetMetaSeqData(&out)
+					got = out
+				}
+				c.Count("shared_out_variable_reads", 1)
+				if !ok || !bytes.Equal(got, it.data) {
+					c.Violation("accessor:shared-out-variable", fmt.Sprintf("pass %d, message %d (%d bytes of payload) read through an out variable that was used for the other messages before: ok=%v, returned %d bytes starting % X, constructed from % X", pass, k, len(it.data), ok, len(got), head(got, 8), head(it.data, 8)), in, mon.Hex(head(it.data, 16)), mon.Hex(head(got, 16)))
+					return
+				}
+				for q := range items {
+					if !bytes.Equal(items[q].m, items[q].keep) {
+						c.Violation("accessor:message-changed", fmt.Sprintf("pass %d: reading message %d changed the bytes of message %d (never touched by the caller): now % X, constructed as % X", pass, k, q, head(items[q].m, 12), head(items[q].keep, 12)), in, mon.Hex(head(items[q].keep, 16)), mon.Hex(head(items[q].m, 16)))
+						return
+					}
+				}
+			}
+		}
+		c.DistinctBytes([]byte(fmt.Sprint("reuse", sizes)), items[0].keep)
 	})
 
 	// ---- text contents from a dictionary of 'special' prefixes, suffixes and whole values
